@@ -102,6 +102,15 @@ class RecTy(Ty):
         self.mutable = mutable
 
 
+class StructTy(Ty):
+    """Immutable value record (TypedDict / frozen model): an SMT datatype with one
+    constructor; equality is structural."""
+
+    def __init__(self, name: str, fields: dict[str, Ty]):
+        self.name = name
+        self.fields = fields
+
+
 INT, BOOL, FLOAT, STR, NONE, ANY = IntTy(), BoolTy(), FloatTy(), StrTy(), NoneTy(), AnyTy()
 
 
@@ -202,6 +211,12 @@ class Prelude:
             s = d.create()
             self.sorts[ty.name] = s
             return s
+        if isinstance(ty, StructTy):
+            d = z3.Datatype(f"Struct_{ty.name}")
+            d.declare(f"mk_{ty.name}", *[(f"{ty.name}__{f}", self.sort(t)) for f, t in ty.fields.items()])
+            s = d.create()
+            self.sorts[ty.name] = s
+            return s
         if isinstance(ty, RecTy):
             s = z3.DeclareSort(f"Ref_{ty.name}")
             self.sorts[ty.name] = s
@@ -232,6 +247,13 @@ class Prelude:
 
     def tup_get(self, ty: TupleTy, v: z3.ExprRef, i: int) -> z3.ExprRef:
         return self.sort(ty).accessor(0, i)(v)
+
+    # --------------------------------------------------------------- structs
+    def struct_mk(self, ty: "StructTy", vals: list[z3.ExprRef]) -> z3.ExprRef:
+        return self.sort(ty).constructor(0)(*vals)
+
+    def struct_get(self, ty: "StructTy", v: z3.ExprRef, f: str) -> z3.ExprRef:
+        return self.sort(ty).accessor(0, list(ty.fields).index(f))(v)
 
     # ------------------------------------------------------------- sequences
     def seqf(self, ty: SeqTy, op: str) -> z3.FuncDeclRef:
@@ -398,6 +420,8 @@ class Prelude:
                                      patterns=[has(m, k)]))
         A(f"{n}.keys_distinct", z3.ForAll([m, i], z3.Implies(z3.And(0 <= i, i < klen(keys(m))), pos(m, kidx(keys(m), i)) == i),
                                           patterns=[kidx(keys(m), i)]))
+        kcnt = self.seqf(kseq, "count")
+        A(f"{n}.keys_count", z3.ForAll([m, k], kcnt(keys(m), k) == z3.If(has(m, k), 1, 0), patterns=[kcnt(keys(m), k)]))
         A(f"{n}.ext", z3.ForAll([m, m2], mapeq(m, m2) == z3.And(
             keys(m) == keys(m2),
             z3.ForAll([k], z3.And(has(m, k) == has(m2, k), z3.Implies(has(m, k), get(m, k) == get(m2, k))),
